@@ -211,9 +211,9 @@ def vectors(ctx):
         qdyn = p * ((1 + 0.2 * m * m) ** 3.5 - 1)
         return math.sqrt(7 * 101325.0 / 1.225 * ((qdyn / 101325.0 + 1) ** (2 / 7.0) - 1)) / 0.514444
 
-    for k in range(ctx.pick(600, 12000)):
+    for k in range(ctx.pick(1800, 24000)):
         mach = rng.randrange(50, 251)
-        alt = rng.choice([rng.randrange(-1, 46) * 1000, rng.randrange(-40, 1800) * 25, rng.randrange(-40, 1) * 25])
+        alt = rng.choice([rng.randrange(-1, 46) * 1000, rng.randrange(-40, 1800) * 25, rng.randrange(-40, 1) * 25, rng.randrange(-40, 1) * 25])
         ias = rng.randrange(0, 501)
         if k % 2:
             ias = max(0, min(1023, int(round(cas_kt(mach * 0.004, alt))) + rng.choice([-27, -23, -21, -20, -19, -17, 17, 19, 20, 21, 23, 27])))
